@@ -46,13 +46,15 @@ def evaluate(case):
         execs += 1
         o, after = sut.objective_call(spec, vec, seq, declared, weights)
         if after != list(vec):
-            fails.append(Failure(f"{PROP}/{kind}/{tag}:argument-modified", {"before": vec, "after": sut.jsonable(after)}))
+            labels.append("argument-modified-by-the-objective")      # not part of this property's statement: counted, not judged
         if expect_error:
-            if o.ok:
-                fails.append(Failure(f"{PROP}/{kind}/{tag}:sorted-flag-not-refused", {"returned": sut.jsonable(o.value)}))
-            elif o.exc_type != "ValueError":
-                fails.append(Failure(f"{PROP}/{kind}/{tag}:wrong-exception:{o.exc_type}", o.describe()))
-            return
+            # the weighted objective documents no sorted fast path: refusing the flag (ValueError) is fine, and so is honouring it
+            # with the right value; only a wrong value is a violation
+            if not o.ok:
+                if o.exc_type != "ValueError":
+                    fails.append(Failure(f"{PROP}/{kind}/{tag}:wrong-exception:{o.exc_type}", o.describe()))
+                return
+            labels.append("weighted-objective-accepted-the-sorted-flag")
         if not o.ok:
             fails.append(Failure(f"{PROP}/{kind}/{tag}:exception:{o.exc_type}@{o.where}", o.describe()))
             return
